@@ -185,8 +185,13 @@ class DummyTable(Table):
         seed = self.seed
         fields = self.fields.copy()
 
-        # N.B., we want this to be stable, i.e., same data each time
+        # N.B., we want this to be stable, i.e., same data each time; the field
+        # functions draw from the global generator, so each iterator keeps a
+        # generator state of its own and swaps it in while a row is produced
+        outer = pyrandom.getstate()
         pyrandom.seed(seed)
+        state = pyrandom.getstate()
+        pyrandom.setstate(outer)
 
         # construct header row
         hdr = tuple(text_type(f) for f in fields.keys())
@@ -197,7 +202,14 @@ class DummyTable(Table):
             # artificial delay
             if self.wait:
                 time.sleep(self.wait)
-            yield tuple(fields[f]() for f in fields)
+            outer = pyrandom.getstate()
+            pyrandom.setstate(state)
+            try:
+                row = tuple(fields[f]() for f in fields)
+            finally:
+                state = pyrandom.getstate()
+                pyrandom.setstate(outer)
+            yield row
 
     def reseed(self):
         self.seed = randomseed()
